@@ -546,3 +546,16 @@ macro_rules! builder_with_headers {
         }
     }};
 }
+
+/// A message that came out of a builder holds a protected header built in memory: when its public
+/// fields are edited afterwards, the structures follow the edit (nothing was received, so there are
+/// no bytes to prefer).  Edits the header in place and returns the bytes it now contributes.
+pub fn edit_built_protected(g: &mut Gen, p: &mut coset::ProtectedHeader) -> Result<Vec<u8>, String> {
+    match g.below(3) {
+        0 => p.header.key_id = [p.header.key_id.clone(), g.nonempty_bytes()].concat(),
+        1 => p.header.rest.push((coset::Label::Int(77_000 + g.range_i64(0, 99)), coset::cbor::value::Value::from(g.range_i64(-9, 9)))),
+        _ => p.header.alg = Some(coset::Algorithm::Assigned(if p.header.alg == Some(coset::Algorithm::Assigned(coset::iana::Algorithm::ES256)) { coset::iana::Algorithm::ES384 } else { coset::iana::Algorithm::ES256 })),
+    }
+    use coset::CborSerializable;
+    p.header.clone().to_vec().map_err(|e| format!("edited built header does not encode: {:?}", e))
+}
